@@ -21,7 +21,7 @@ BOUNDS = {
 STUBS = ["exp / log -> one symbol per distinct argument (so the check is about bins, shell norms, prefactor, trapezoid weights, "
          "width selection and the r < r_max filter)", "np.linalg.eig -> 2x2 closed form; 3x3: eigenvalue symbols constrained by "
          "Vieta's relations (LAPACK in replays)", "np.save -> recorder"]
-ASSUMPTIONS = ["floats modelled as reals", "particles distinct", "gyration radius != 1 (fractal dimension defined)"]
+ASSUMPTIONS = ["floats modelled as reals", "particles distinct", "tetrahedral order with more than four candidates: pairwise different distances from the centre (no tie for the 4th place)", "gyration radius != 1 (fractal dimension defined)"]
 
 
 def _gauss(ctx, x, sigma):
@@ -145,6 +145,11 @@ def h_tetra(ctx, N, kind, fixed=0, symcoords=3, cell=None):
     for i in centres:
         others = [j for j in range(N) if j != i]
         if len(others) > 4:
+            # which particles are "the four nearest" is undefined when the 4th and 5th distances coincide: general position
+            for x in range(len(others)):
+                for y in range(x + 1, len(others)):
+                    e = O.eq(D2[(i, others[x])], D2[(i, others[y])])
+                    ctx.assume(O.Not(e) if sym else abs(D2[(i, others[x])] - D2[(i, others[y])]) > 1e-9)
             # the four nearest on this path: decided through the cache of the code's own comparisons
             order = sorted(others, key=lambda j: 0)
             nearest = []
